@@ -63,7 +63,17 @@ def runCase (cfg : List String) (ops : List String) : List String :=
       remove <hex> / add <hex>               removeProcessGroup / addProcessGroup
     In a history no process is ever started, so every stop completes trivially. -/
 
-def cfgDigest (g : GConfig) : String := groupLine g ++ ";" ++ ";".intercalate (g.procs.map procLine)
+def optIntS : Option Int → String
+  | none => "None"
+  | some n => toString n
+
+/-- the socket options of an fcgi group beside its url (backlog, mode; the owner is determined by the processes' uid) -/
+def sockExtra (g : GConfig) : String :=
+  match g.kind with
+  | .fcgi => " backlog=" ++ optIntS g.socket_backlog ++ " mode=" ++ optIntS g.socket_mode
+  | _ => ""
+
+def cfgDigest (g : GConfig) : String := groupLine g ++ sockExtra g ++ ";" ++ ";".intercalate (g.procs.map procLine)
 def listDigest (l : List GConfig) : String := if l.isEmpty then "-" else "#".intercalate (l.map cfgDigest)
 def stateLine (ans : String) (s : State) : String :=
   ans ++ " | file=" ++ listDigest s.file ++ " | active=" ++ listDigest (s.active.map (·.cfg))
